@@ -267,3 +267,29 @@ def _reads(x, L):
     if isinstance(x, list):
         return any(_reads(v, L) for v in x)
     return False
+
+
+def check_terminal_gc(ctx, F, rule="E-FREELIST.term"):
+    """`DynamicTerminalManager::gc` threads the free list through a local while it sweeps the unique table (the
+    closure passed to `retain` links every freed slot in front of it).  After the sweep the local head must be written
+    back to `state.next_free` on every path to the return; otherwise the freed terminal slots are unreachable and a
+    retry after drop + gc still fails with OutOfMemory."""
+    n = 0
+    for fid, m in sorted(F.mir.items()):
+        if not (re.search(r"terminal_manager::dynamic::", fid) and fid.endswith("::gc") and "{closure" not in fid):
+            continue
+        B = cfg.Body(m)
+        retains = [i for i, t in B.calls() if (cfg.callee_name(t) or "").endswith("::retain")]
+        stores = [i for i in sorted(B.reach) if not m["blocks"][i]["c"] and
+                  any(isinstance(s.get("lhs"), dict) and s["lhs"].get("p") and str(s["lhs"]["p"][-1]).startswith(".next_free@")
+                      for s in m["blocks"][i]["s"])]
+        n += 1
+        ok = bool(retains) and all(any(B.postdominates(s, r) and s != r or (B.dominates(r, s) and B.postdominates(s, r)) for s in stores)
+                                   for r in retains)
+        ctx.ob(rule, "%s:%s" % (rule, F.nice(fid)), ok,
+               "%s (%s): %s" % (F.nice(fid), F.where(fid),
+                                "the free-list head built during the sweep is written back to state.next_free" if ok else
+                                "after the sweep (`retain`) the local free-list head is not written back to `state.next_free` on "
+                                "every path: the freed terminal slots can never be reused"))
+    ctx.floor(rule, "dynamic terminal managers with a gc", n, 1)
+    return n
